@@ -7,7 +7,7 @@
 (***************************************************************************)
 EXTENDS Codec, Universe, Json, IOUtils
 
-CONSTANTS ModIdx, PlanSet, Depth, MaxCompose, XerVals
+CONSTANTS ModIdx, PlanSet, Depth, MaxCompose, XerVals, ValCap, MaxFail
 TheNames == JsonDeserialize(IOEnv.VERIF_NAMES)
 TheMod == Modules[ModIdx]
 
@@ -72,6 +72,45 @@ RepPlans(n, v) ==
       s \in CanonSyntaxes, r \in {x \in Reps : RepApplies(TRef(n), v, x)}}
   \cup {<<OpBuild(1), OpEncode(1, s), OpDecodeLit(2, "DER", BerVar(Env, TRef(n), v, BerStyles[i]), StyleName(i)), OpCompare(1, 2), OpEncode(2, s)>> :
            s \in CanonSyntaxes, i \in {16}}
+\* ---- C07: encoder sinks ------------------------------------------------------
+Rels == <<"zero", "one", "half", "minus1", "exact", "plus1">>
+SinkPlans(n, v) ==
+  {<<OpBuild(1), OpEncode(1, s)>> \o [i \in DOMAIN Rels |-> OpEncodeBuf(1, s, Rels[i])]
+     \o [k \in 1..(MaxFail + 1) |-> OpEncodeCb(1, s, k - 1)] \o <<OpFree(1)>> : s \in Syntaxes}
+  \cup {<<OpBuildVal(1, x), OpEncode(1, s), OpEncodeCb(1, s, 0), OpEncodeCb(1, s, 1), OpEncodeBuf(1, s, "plus1"), OpFree(1)>> :
+          s \in Syntaxes, x \in Take(Corruptions(RawEnv, TRef(n), v), 2)}
+  \cup (IF v = CHOOSE w \in Values(RawEnv, TRef(n), Depth) : TRUE
+        THEN {<<OpBuildZero(1), OpEncode(1, s), OpEncodeCb(1, s, 0), OpEncodeBuf(1, s, "plus1"), OpFree(1)>> : s \in Syntaxes}
+        ELSE {})
+
+\* ---- C04 / C14: arbitrary octets, lifecycle ----------------------------------
+\* streams for one-shot decoders: the reference encodings incl. UPER, XER text when writable
+AllStreams(n, v) ==
+  {<<"DER", Enc("DER", TRef(n), v)>>, <<"OER", Enc("OER", TRef(n), v)>>, <<"UPER", Enc("UPER", TRef(n), v)>>}
+  \cup (IF XerWritable(Env, TRef(n), v) THEN {<<"CXER", Ser(XerTokens(Env, n, TRef(n), v), "canon")>>} ELSE {})
+Byte(x) == x % 256
+Interesting(x) == {0, 1, 127, 128, 129, 255, Byte(x + 1), Byte(x + 255), Byte(x + 128)} \ {x}
+Positions(b) == IF Len(b) <= 10 THEN DOMAIN b ELSE (1..6) \cup ((Len(b) - 3)..Len(b))
+Mutations(b) ==
+  {<<"truncate", SubSeq(b, 1, k)>> : k \in 0..(Len(b) - 1)}
+  \cup UNION {{<<"setbyte", [b EXCEPT ![i] = x]>> : x \in Interesting(b[i])} : i \in Positions(b)}
+  \cup (IF Len(b) >= 2 THEN {<<"dup-tail", b \o SubSeq(b, Len(b) \div 2 + 1, Len(b))>>, <<"drop-byte", SubSeq(b, 1, Len(b) \div 2) \o SubSeq(b, Len(b) \div 2 + 2, Len(b))>>} ELSE {})
+  \cup {<<"append-ff", b \o <<255, 255, 255, 255>>>>}
+MutPlans(n, v) ==
+  UNION {{<<OpDecodeAny(1, st[1], m[2], m[1]), OpPrint(1), OpCheck(1), OpEncode(1, "DER"), OpDecode(2, "DER"), OpCompare(1, 2),
+           OpFree(1), OpFree(2)>> : m \in Mutations(st[2])} : st \in AllStreams(n, v)}
+CutSample(b) == {c \in {1, Len(b) \div 2, Len(b) - 1} : c >= 1 /\ c < Len(b)}
+LifePlans(n, v) ==
+  UNION {
+    (IF st[1] # "UPER" THEN {<<OpStartDecode(1, st[1], st[2]), OpDecodeCall(c), OpFree(1)>> : c \in CutSample(st[2])} ELSE {})
+    \cup {<<OpDecodeLit(1, st[1], st[2], "valid"), OpReset(1), OpDecodeInto(1, st[1], st[2]), OpEncode(1, "DER"), OpFree(1)>>}
+    \cup {<<OpArm(k), OpDecodeLit(1, st[1], st[2], "armed"), OpFree(1)>> : k \in 1..MaxFail}
+    \cup {<<OpBuild(1), OpArm(k), OpEncode(1, st[1]), OpFree(1)>> : k \in 1..3}
+    \cup {<<OpDecodeAny(1, st[1], m[2], m[1]), OpFree(1)>> : m \in {x \in Mutations(st[2]) : x[1] \in {"truncate", "drop-byte"}}}
+    \cup {<<OpDecodeAny(1, st[1], m[2], m[1]), OpReset(1), OpDecodeInto(1, st[1], st[2]), OpFree(1)>> :
+            m \in {x \in Mutations(st[2]) : x[1] = "dup-tail"}}
+    : st \in AllStreams(n, v)}
+
 \* C08: the value itself (valid by construction) and every single-constraint corruption of it
 CheckPlans(n, v) ==
   IF ~Valid(RawEnv, TRef(n), v) THEN {}      \* out-of-root values of extensible constraints are not C08's
@@ -79,6 +118,9 @@ CheckPlans(n, v) ==
        \cup {<<OpBuildVal(1, x), OpCheck(1)>> : x \in Corruptions(RawEnv, TRef(n), v)}
 PlansFor(n, v) ==
   CASE PlanSet = "check" -> CheckPlans(n, v)
+    [] PlanSet = "sinks" -> SinkPlans(n, v)
+    [] PlanSet = "mutations" -> MutPlans(n, v)
+    [] PlanSet = "life" -> LifePlans(n, v)
     [] PlanSet = "reps" -> RepPlans(n, v)
     [] PlanSet = "variants" -> BerVariants(n, v) \cup PerOerVariants(n, v) \cup XerVariants(n, v)
     [] PlanSet = "split" -> UNION {Splits(st[1], st[2]) : st \in Streams(n, v)}
@@ -86,7 +128,9 @@ PlansFor(n, v) ==
                                     \cup ByteWise(st[1], st[2]) : st \in Streams(n, v)}
     [] OTHER -> Plans
 
-Init == \E n \in TypeNames : \E v \in Values(RawEnv, TRef(n), Depth) : \E p \in PlansFor(n, v) :
+\* ValCap > 0 bounds the number of values per type (the heavier plan sets)
+ValuesOf(n) == IF ValCap = 0 THEN Values(RawEnv, TRef(n), Depth) ELSE Take(Values(RawEnv, TRef(n), Depth), ValCap)
+Init == \E n \in TypeNames : \E v \in ValuesOf(n) : \E p \in PlansFor(n, v) :
           InitSession([ty |-> n, val |-> v, plan |-> p])
 Next == Step(GenObs)
 Spec == Init /\ [][Next]_vars
